@@ -43,6 +43,9 @@ def world():
     def checksum_spec(kid, key):
         return BSeq(uf('aes_ecb', key.items + le_order(kid.items), 16)[:8], 'bytes')
 
+    w['wrm_len'] = z3.Int('wrm_len')
+    w['is_wrm_text'] = lambda t: z3.BoolVal(isinstance(t, Obj) and t.f.get('of') == 'wrm')
+    w['is_wrm_xml'] = lambda x: z3.BoolVal(isinstance(x, Obj) and isinstance(x.f.get('of'), Obj) and x.f['of'].f.get('of') == 'wrm')
     w.update(guid_le=guid_le, keyseed_spec=keyseed_spec, checksum_spec=checksum_spec, blen=lambda x: len(x.items))
     return w
 
@@ -172,6 +175,103 @@ def wrmheader(nkeys, default, version):
     )
 
 
+# ----------------------------------------------------------------------------- PlayReady Object framing: generate_pro -> parse_pro
+LE_FORMATS = {'<HH': (2, 2), '<IH': (4, 2)}
+
+
+class Chunks:
+    """bytes built by concatenation: little-endian struct fields and opaque blobs with (symbolic) lengths"""
+    py_types = ('bytes',)
+
+    def __init__(self, items):
+        self.items = items              # [('le', fmt, (values...)) | ('blob', name, length)]
+
+    def len(self, eng):
+        t = z3.IntVal(0)
+        for it in self.items:
+            t = t + (sum(LE_FORMATS[it[1]]) if it[0] == 'le' else zint(it[2]))
+        return z3.simplify(t)
+
+    def binop(self, eng, op, other, swapped):
+        import ast as _ast
+        if isinstance(op, _ast.Add) and isinstance(other, Chunks):
+            return Chunks(other.items + self.items if swapped else self.items + other.items)
+        raise Unsupported('bytes operation')
+
+    def method(self, eng, name, args, kwargs, e):
+        if name == 'decode' and len(self.items) == 1 and self.items[0][0] == 'blob':
+            return Obj('Text', {'of': self.items[0][1]})
+        raise Unsupported(f'bytes.{name}')
+
+
+class ChunkStream:
+    def __init__(self, chunks):
+        self.items, self.k = list(chunks.items), 0
+
+    def method(self, eng, name, args, kwargs, e):
+        if name != 'read':
+            raise Unsupported(f'stream.{name}')
+        n = args[0]
+        if self.k >= len(self.items):
+            return b''
+        it = self.items[self.k]
+        have = sum(LE_FORMATS[it[1]]) if it[0] == 'le' else it[2]
+        if z3.simplify(zint(n) - zint(have)).eq(z3.IntVal(0)):
+            self.k += 1
+            return Chunks([it])
+        # a read that does not end on a chunk boundary: the framing lengths do not match what was written
+        eng.oblige('safety', 'framing.read_matches_written_record', z3.BoolVal(False))
+        from pyvc.engine import PathCut
+        raise PathCut()
+
+
+def le_pack(eng, e, a, kw):
+    fmt = a[0]
+    if fmt not in LE_FORMATS or len(a) - 1 != len(LE_FORMATS[fmt]):
+        raise Unsupported(f'struct.pack({fmt!r})')
+    for v, n in zip(a[1:], LE_FORMATS[fmt]):
+        eng.oblige('safety', f'range:struct.pack({fmt})', z3.And(zint(v) >= 0, zint(v) < 256 ** n))
+    if fmt == '<IH':
+        eng.ghost_env['pro_length'], eng.ghost_env['pro_count'] = zint(a[1]), zint(a[2])
+    return Chunks([('le', fmt, tuple(a[1:]))])
+
+
+def le_unpack(eng, e, a, kw):
+    fmt, data = a
+    if isinstance(data, Chunks) and len(data.items) == 1 and data.items[0][0] == 'le' and data.items[0][1] == fmt:
+        return tuple(v.as_long() if z3.is_expr(v) and z3.is_int_value(z3.simplify(v)) else v for v in
+                     (z3.simplify(zint(x)) if z3.is_expr(x) else x for x in data.items[0][2]))
+    eng.oblige('safety', 'framing.unpack_matches_written_record', z3.BoolVal(False))
+    from pyvc.engine import PathCut
+    raise PathCut()
+
+
+def pro_contract():
+    def sequel_env(eng, env_after, value):
+        return dict(env_after, clz=Opaque('class:PlayReady'), src=ChunkStream(value))
+    return Contract(
+        key=f'{PR}:PlayReady.generate_pro', props=['C11', 'C10'],
+        env=lambda w: {'self': Obj('PlayReady', {}), 'la_url': Opaque('la'), 'default_kid': Opaque('kid'), 'keys': Opaque('keys'),
+                       'custom_attributes': None},
+        requires=[('wrm_length', '0 <= wrm_len'),
+                  # region: the record length is a 16-bit field (a longer WRMHEADER cannot be framed: struct.error)
+                  ('region_16bit_record_length', 'wrm_len < 65536 - 10')],
+        models={'self.generate_wrmheader': lambda eng, e, a, kw: Chunks([('blob', 'wrm', eng.world['wrm_len'])]),
+                'struct.pack': le_pack, 'struct.unpack': le_unpack,
+                'io.StringIO': lambda eng, e, a, kw: a[0], 'ElementTree.parse': lambda eng, e, a, kw: Obj('Xml', {'of': a[0]})},
+        ctors={'PlayReadyRecord': lambda eng, a, kw: Obj('PlayReadyRecord', dict(kw))},
+        sequel={'qual': 'PlayReady.parse_pro', 'env': sequel_env},
+        ensures=[('one_record', 'length(result) == 1'),
+                 ('record_type_and_length', 'result[0].record_type == 1 and result[0].length == wrm_len'),
+                 ('header_is_the_wrmheader', 'is_wrm_text(result[0].header) and is_wrm_xml(result[0].xml)'),
+                 ('object_length_and_count', 'pro_length == wrm_len + 10 and pro_count == 1')],
+        canaries=['result[0].length == 0'],
+        witness_terms=lambda w: (lambda ev: {'wrm_len': ev(w['wrm_len'])}),
+    )
+
+
+PRO = pro_contract()
+
 WRMHEADER = [wrmheader(1, 0, 4.0), wrmheader(2, 0, 4.0), wrmheader(3, 1, 4.1), wrmheader(2, 1, 4.2)]
 CHECKSUM_INLINE = Contract(key=f'{PR}:PlayReady.generate_checksum', variant='inline', props=[], inline=True)
 CHECKSUM.applies = lambda frame: False                 # call sites analyse the real body
@@ -181,7 +281,7 @@ HEX_TO_LE_TEXT.applies = lambda fr: fr.get('raw') is False
 
 GROUP = Group(
     name='playready', world=world,
-    contracts=[HEX_TO_LE_RAW, HEX_TO_LE_RAW_BAD, HEX_TO_LE_TEXT] + CONTENT_KEY + [CHECKSUM] + WRMHEADER + [CHECKSUM_INLINE],
+    contracts=[HEX_TO_LE_RAW, HEX_TO_LE_RAW_BAD, HEX_TO_LE_TEXT] + CONTENT_KEY + [CHECKSUM] + WRMHEADER + [PRO, CHECKSUM_INLINE],
     assumptions=[
         'C11: SHA-256 and AES-ECB are uninterpreted functions of exactly their input bytes (pycryptodome trusted)',
         'C11: binascii.b2a_hex / a2b_hex are mutually inverse nibble splits; str(x, "ascii") keeps the characters',
